@@ -33,7 +33,10 @@ def main():
     dest = m.group(1)
     m = re.search(r'cargo test[^\n]*', demo_txt)
     cmd = m.group(0).strip()
-    cmd = re.sub(r'\s+--\s+--nocapture', '', cmd)
+    if ' -- ' in cmd:
+        head, tail = cmd.split(' -- ', 1)
+        targs = [a for a in tail.split() if a != '--nocapture']
+        cmd = head + (' -- ' + ' '.join(targs) if targs else '')
     wt = '/tmp/wt-verify'
     meta = {'property': pid, 'source': 'independent sub-agent given only the property text and a scratch worktree', 'demo_path': dest, 'demo_cmd': cmd, 'ran': []}
     if not os.path.isdir(wt):
